@@ -13,7 +13,7 @@ for line in open(f"/tmp/confirm_{prop}.out"):
     if line.startswith(name + ":"):
         confirm = line.strip()
 meta["breaks_property"] = prop
-meta["confirmed_by_me"] = confirm + " (demo_without_patch_exit=0: passes on the unchanged tree; demo_with_patch_exit=101: fails with the change; suite failures, if any, are temp-file collisions in tree::tests::* (they fail with "Failed to create test db: NotFound" when the machine is busy and pass alone))"
+meta["confirmed_by_me"] = confirm + " (demo_without_patch_exit=0: passes on the unchanged tree; demo_with_patch_exit=101: fails with the change; suite failures, if any, are temp-file collisions in tree::tests::* - they fail with 'Failed to create test db: NotFound' when the machine is busy and pass alone)"
 meta["caught_by_checks"] = [] if caught == "none" else caught.split(",")
 meta["check_result_note"] = note
 meta["how_to_run"] = f"git -C /repo apply /verif/seeded/{prop}/{name}/patch.diff && /verif/check <ID>; git -C /repo checkout -- ."
